@@ -20,6 +20,10 @@ claimed = {
          "Real arithmetic, exp/pow uninterpreted with range axioms; induction over the 24 iterations and over days is by the partition of the function body (lifter) and the stated invariant.", "§6 C19"),
  "C20": ("GetGroundWaterLevel on a symbolic ascending series of k<=3 (thorough 5) timestamps: exact hit, linear interpolation within neighbours, nearest value outside, no error for a non-empty series.",
          "Real/Int arithmetic; map with symbolic keys modelled as association list with presence conditions.", "§6 C20"),
+ "C12": ("The real DateConverter / KalenderConverter / KalenderDate closures executed symbolically over the whole domain (day numbers 1..72684, all valid date texts as symbolic digit bytes, 4 formats x separators, century split symbolic): number->text->number and text->number->text round trips, successor law, day-of-year, leap years, calendar validity.",
+         "Integer (Int) arithmetic with every int64 overflow proved absent as side obligation; fmt.Sprintf/strconv modelled at digit level (stubs listed in evidence).", "§6 C12"),
+ "C17": ("main() of calcHermesBatch executed symbolically with the file reader replaced by an arbitrary line count: for every line count >= nodes (nodes 1..16 quick, 64 thorough) and every enumerated count below, the printed ranges are as many as the reported size, contiguous from 1 and end at the last line; lineCounter equals the simulator's executed-line count for all byte buffers up to 4 (thorough 6) bytes in one or two chunks.",
+         "Int arithmetic; printed text modelled as segments (literal text + decimal rendering of an int term); hermes2go's -lines dispatch (goroutines) not encoded.", "§6 C17"),
 }
 props = [json.loads(l) for l in open(os.path.join(ROOT, 'properties.jsonl'))]
 reasons = {}
